@@ -17,28 +17,34 @@ Import ListNotations.
 
 (* ------------------------------------------------------------------ *)
 (* Knobs: the behaviour of the code as it is today. Each defect found by
-   C20 is one of these lines; the fixed variant is the other value.       *)
+   C20 is one of these lines. The values below mirror /repo AFTER the fix
+   commits 62b8f1e (SRem), 15389c5 (ParseStates), 53e1b51 (PositionFirst),
+   a6ca6ba (ActiveStates), b485b5c (Time.Equal), 11381de (S.Add); the other
+   value of a knob is the code before its fix (the comments describe that
+   old behaviour). last_idx_absolute is NOT fixed (known finding 2:242).
+   Props/C20.v pins the values ([model_is_todays_code]) and proves for every
+   knob that the unfixed value violates the clause ([*_unfixed_refuted]). *)
 
 (* SRem: `for i := 1; i < len(states); i++` — the first list is skipped.
    Fixed code starts at 0. *)
-Definition s_rem_from : nat := 1.
+Definition s_rem_from : nat := 0.
 (* ParseStates: with a duplicate in the input it returns slicesUniq(states)
    without dropping unknown names. Fixed: true. *)
-Definition parse_dup_filters : bool := false.
+Definition parse_dup_filters : bool := true.
 (* IsQueued: PositionFirst does iter[0:1] without looking at len(iter).
    Fixed: true. *)
-Definition first_guards_empty : bool := false.
+Definition first_guards_empty : bool := true.
 (* IsQueued: with PositionLast the returned index is relative to the
    one-element sub-slice (always 0). Fixed: true (index in the queue). *)
 Definition last_idx_absolute : bool := false.
 (* Time.ActiveStates(idxs) ignores idxs. Fixed: true. *)
-Definition active_states_filters : bool := false.
+Definition active_states_filters : bool := true.
 (* Time.Equal(false, t2) indexes time2[i] for every i < len(t). Fixed: true
    (stops at the shorter one). *)
-Definition time_equal_guards : bool := false.
+Definition time_equal_guards : bool := true.
 (* S.Add() without arguments returns the receiver as is (duplicates kept).
    Fixed: true (always slicesUniq). *)
-Definition add_noargs_uniq : bool := false.
+Definition add_noargs_uniq : bool := true.
 
 (* ------------------------------------------------------------------ *)
 (* State lists                                                          *)
